@@ -21,6 +21,12 @@ def main():
         shard = json.load(f)
     H.open_out(opath)
     sys.setrecursionlimit(5000)
+    if sys.flags.bytes_warning:
+        # `python -b` worker: a str/bytes comparison inside the library is an error (what `python -bb` users get),
+        # the same comparison inside the harness or the standard library is not the library's business
+        import warnings
+        warnings.filterwarnings("ignore", category=BytesWarning)
+        H.bytes_strict(True)
     try:
         mod = importlib.import_module("props." + prop.lower())
         mod.run(shard)
